@@ -260,7 +260,7 @@ def r10a(model: Model, rr: RuleResult):
     lcfg = cfg_of(lfi)
     for f in scalar:
         if f not in pops:
-            rr.bad(lfi, lfi.node, f"config.load never reads '{f}' via _pop_flag: file and flag values are ignored",
+            rr.bad_shape(lfi, lfi.node, f"config.load never reads '{f}' via _pop_flag: file and flag values are ignored",
                    construct=f"load: missing _pop_flag(config, '{f}')")
         else:
             rr.ok(f"load pops '{f}'")
@@ -301,7 +301,7 @@ def r10a(model: Model, rr: RuleResult):
                 ):
                     names.add(c.args[1].value)
         if names != {f}:
-            rr.bad(lfi, kws[f], f"keyword {f}={short(kws[f])} derives from _pop_flag of {sorted(names) or 'nothing'}, "
+            rr.bad_shape(lfi, kws[f], f"keyword {f}={short(kws[f])} derives from _pop_flag of {sorted(names) or 'nothing'}, "
                    f"expected exactly '{f}'", construct=f"FontConfig({f}={short(kws[f])})")
         else:
             rr.ok(f"keyword {f} <- _pop_flag(config, '{f}')")
@@ -346,7 +346,7 @@ def r10a(model: Model, rr: RuleResult):
         if k not in nested_w or k not in nested_r:
             raise AnalysisError(f"nested '{k}' section: writer or reader loop not found")
         if nested_w[k] != nested_r[k]:
-            rr.bad(lfi, lfi.node, f"[{k}.*] keys written {sorted(nested_w[k])} != keys read {sorted(nested_r[k])}",
+            rr.bad_shape(lfi, lfi.node, f"[{k}.*] keys written {sorted(nested_w[k])} != keys read {sorted(nested_r[k])}",
                    construct=f"nested {k}: write {sorted(nested_w[k])} vs load {sorted(nested_r[k])}")
         else:
             rr.ok(f"[{k}.*] keys agree: {sorted(nested_w[k])}")
